@@ -1,6 +1,6 @@
 ----------------------------- MODULE Trace_Date -----------------------------
 (* impl -> spec for PlainDate sessions (C01, C04): every logged call must be a step of DateArith. *)
-EXTENDS DateArith, TraceBase
+EXTENDS DateArithMachine, TraceBase
 
 VARIABLE l
 tvars == <<cur, last, l>>
